@@ -364,11 +364,87 @@ def names_ns(f):
     return {ps[0]: NS, ps[1]: 'ARGS'}
 
 
+def legacy_retry(ctx, cname):
+    """a function handler that raises TypeError is re-invoked only for the
+    'disconnect' event, without the last argument (handlers written before
+    the reason argument existed), and that result is what is returned; for
+    any other event the TypeError propagates."""
+    m = ctx.model
+    f = m.method(cname, '_trigger_event')
+    construct = '%s._trigger_event' % cname
+    ev = f.params[1]
+
+    def fn_call(e, run):
+        fx = run.expand(e.expr.func)
+        return isinstance(fx, ast.Subscript) and \
+            isinstance(fx.value, ast.Call) and is_const(fx.slice, 0) and \
+            U(fx.value.func).endswith('_get_event_handler')
+    def raiser2(e):
+        # e.expr.func is a value symbol or a subscript of the lookup result
+        t = U(e.expr.func) if e.kind == 'call' else ''
+        if e.kind == 'call' and (t.startswith('handler') or '[0]' in t):
+            return [{'TypeError'}]
+        return None
+    run = run_function(f, m, raiser=raiser2)
+    n_retry = n_raise = 0
+    for p in run.paths:
+        caught = [e for e in p.events if e.kind == 'caught' and
+                  'TypeError' in U(e.expr) and e.extra is not None and
+                  e.extra.origin is not None and
+                  fn_call(e.extra.origin, run)]
+        if not caught:
+            continue
+        is_disc = None
+        for c in p.conds:
+            a = run.expand(c.atom)
+            if c.at >= caught[0].idx and isinstance(a, ast.Compare) and \
+                    U(a.left) == ev and is_const(a.comparators[0],
+                                                 'disconnect'):
+                is_disc = c.pol
+        later = [e for e in p.events[caught[0].idx:] if e.kind == 'call' and
+                 fn_call(e, run)]
+        if is_disc:
+            n_retry += 1
+            a = later[0].expr.args if later else []
+            shape = len(a) == 1 and isinstance(a[0], ast.Starred) and \
+                isinstance(a[0].value, ast.Subscript) and \
+                isinstance(a[0].value.slice, ast.Slice) and \
+                a[0].value.slice.lower is None and \
+                U(a[0].value.slice.upper) == '-1'
+            rv = strip_await(run.expand(p.value)) \
+                if p.value is not None else None
+            ok = len(later) == 1 and shape and p.exit == 'return' and \
+                rv is not None and U(rv) == U(run.expand(later[0].expr))
+            # an exceptional continuation of the retry itself is its own path
+            if p.exit == 'exc':
+                continue
+            ctx.check(ok, construct, "TypeError on 'disconnect': the handler "
+                      'is re-invoked once without the last argument and its '
+                      'result returned', key='legacy-retry',
+                      reason="after a TypeError of a 'disconnect' handler: "
+                      '%d re-invocation(s) %s, exit %s' % (
+                          len(later), [U(e.expr)[:40] for e in later],
+                          p.exit), where=where(f, caught[0].node))
+        elif is_disc is False:
+            n_raise += 1
+            ctx.check(not later and p.exit in ('raise', 'exc'), construct,
+                      'TypeError on any other event propagates',
+                      key='legacy-other', reason='a TypeError of a handler '
+                      'of another event is followed by %d re-invocation(s), '
+                      'exit %s' % (len(later), p.exit),
+                      where=where(f, caught[0].node))
+    if not n_retry:
+        ctx.bad(construct, 'legacy-missing', "no path re-invokes a "
+                "'disconnect' handler after TypeError (legacy one-argument "
+                'handlers would fail)', where(f))
+
+
 def r3_trigger(ctx, cname, is_server):
     m = ctx.model
     f = m.method(cname, '_trigger_event')
     construct = '%s._trigger_event' % cname
     w = where(f)
+    legacy_retry(ctx, cname)
     # application handlers may raise TypeError (legacy retry); we only need
     # normal paths here
     run = run_function(f, m)
@@ -574,7 +650,11 @@ def r4_namespace_trigger(ctx, cname):
             if invoked and p.value is not None:
                 rv = strip_await(run.expand(p.value))
                 okr = any(U(rv) == U(run.expand(e.expr)) for e, _ in invoked)
-                okr = okr or (is_const(rv, None) and f.is_async)
+                cancelled = any(e.kind == 'caught' and
+                                'CancelledError' in U(e.expr)
+                                for e in p.events)
+                okr = okr or (is_const(rv, None) and f.is_async and
+                              cancelled)
                 ctx.check(okr, construct, 'returns the method result',
                           key='result', where=w)
             elif invoked:
